@@ -1,6 +1,7 @@
 package lach
 
 import (
+	"fmt"
 	"math/rand"
 	"sort"
 
@@ -30,6 +31,25 @@ type PlayOpts struct {
 func orderEvents(r *rand.Rand, evs []*Ev, mode string) []*Ev {
 	if mode == "gen" || mode == "" || len(evs) == 0 {
 		return evs
+	}
+	if len(mode) > 5 && mode[:5] == "last:" {
+		// a random parents-first order of all other events, then the given childless event
+		var lastID int
+		fmt.Sscan(mode[5:], &lastID)
+		var rest []*Ev
+		var last *Ev
+		for _, e := range evs {
+			if e.ID == lastID {
+				last = e
+			} else {
+				rest = append(rest, e)
+			}
+		}
+		out := orderEvents(r, rest, "topo")
+		if last != nil {
+			out = append(out, last)
+		}
+		return out
 	}
 	n := len(evs)
 	idxOf := map[int]int{}
